@@ -2,7 +2,8 @@
 # setup.sh [tools]: build the framework's tools from files on disk only and warm
 # the Go build cache (runtime overlay + cgo sqlite) so that checks start fast.
 set -u
-V=/verif
+V="${VERIF_HOME:-$(cd "$(dirname "${BASH_SOURCE[0]}")" && pwd)}"
+export VERIF_HOME="$V"
 export GOFLAGS=-mod=mod GOPROXY=off GOSUMDB=off GOTOOLCHAIN=local CGO_ENABLED=1
 export PATH=/opt/veriftools/go1.26.8/bin:$PATH
 mkdir -p $V/bin $V/build
